@@ -362,6 +362,13 @@ def run_scenario(spec):
         ok, detail = replay_schedule(a['scenario'], sched, patches)
         out.update(status='sat', replayed=ok, detail=detail, cex=dict(schedule=[list(map(str, l)) for l in sched]))
         return out
+    if a.get('bmc_only'):
+        if r != 'unsat up to depth %d' % T:
+            out.update(status='unknown', detail='BMC to depth %d: %s' % (T, r))
+            return out
+        out.update(status='unsat', detail='bounded verdict: no violating schedule of up to %d steps (bit-vector BMC); the unbounded inductive '
+                                          'argument for this scenario runs in the thorough tier' % T)
+        return out
     verdict, ninv, q, secs, names, inv = protocol.houdini(auts, sem, prop)
     stats.update(queries=stats['queries'] + q, solver_s=round(stats['solver_s'] + secs, 2), invariant_conjuncts=ninv)
     if verdict == 'proved':
@@ -537,7 +544,7 @@ SCENARIOS = {
     'meta2x2-bulk/two-tiles-of-one-meta-tile': dict(config='meta2x2-bulk', requests=[[A], [B]]),
 }
 QUICK = ['single/same-tile-x2', 'single/two-tiles', 'meta2x2/same-tile-x2', 'meta2x2/two-tiles-of-one-meta-tile',
-         'meta2x2/different-meta-tiles']
+         'meta2x2/different-meta-tiles', 'meta2x2-bulk/two-tiles-of-one-meta-tile']
 
 CANARIES = [
     ('no re-check under the lock (single tile)', 'single/same-tile-x2', {'mapproxy.cache.tile': [(
@@ -564,6 +571,8 @@ def obligations(tier, seed):
             args['same_lock'] = [0, 1]
         if name == 'meta2x2/different-meta-tiles' and tier != 'thorough':
             args['structural_only'] = True
+        if name == 'meta2x2-bulk/two-tiles-of-one-meta-tile' and tier != 'thorough':
+            args['bmc_only'] = True      # the Houdini run of this scenario takes ~200 s
         specs.append(dict(name='concurrent/' + name, module=MOD, func='run_scenario', kind='holds', args=args, cost=10 * len(scn['requests']) ** 2))
     specs.append(dict(name='twin/fetch-reachable', module=MOD, func='run_witness', kind='witness', args=dict(scenario=SCENARIOS['meta2x2/same-tile-x2']), cost=2))
     for label, scn, patches in (CANARIES if tier == 'thorough' else CANARIES[:3]):
